@@ -60,6 +60,9 @@ const (
 	hvDeliver  = 112 // a = command id whose result was handed over (after the channel send completed)
 	hvFCancel  = 113 // a = command id: PutOne returned the context error (flowbuffer only)
 	hvFDeliver = 114
+	hvWTuple   = 115 // a = id of the returned `one` (-1 = zero value), b = id of the returned `multi` (-1 = nil)
+	hvRTuple   = 116 // same for NextResultCh
+	hvRResps   = 117 // a = tag of the returned `resps` (-1 = nil)
 )
 
 type Case struct {
@@ -88,7 +91,7 @@ func genCase(r *gen.Rand, i int) any {
 		c.Each = r.Range(1, 3)
 	}
 	c.Start = gen.Pick(r, []uint32{0, 0, 1, 7, 0xffffffff, 0xfffffffe, 0xfffffffd, 0xfffffff9, 0x7fffffff})
-	c.Multi = gen.Pick(r, []int{0, 2, 3})
+	c.Multi = gen.Pick(r, []int{0, 2, 2, 3}) // mixed PutOne / PutMulti: a PutOne re-uses a slot a PutMulti used one lap before
 	c.Detach = gen.Pick(r, []int{0, 0, 3, 5})
 	c.Poll = gen.Pick(r, []int{0, 0, 2, 4})
 	c.WDelayUs = gen.Pick(r, []int{0, 0, 5, 30, 100})
@@ -126,6 +129,36 @@ func cmdID(one rueidis.Completed) (id int) {
 	return rueidis.VerifCmdID(one)
 }
 
+// payloadIDs identifies what a queue call returned: the id of `one` (-1 = zero Completed), the id of multi[0]
+// (-1 = nil slice) and the tag the PutMulti caller stored in resps[0] (-1 = nil slice)
+func payloadIDs(one rueidis.Completed, multi []rueidis.Completed, resps []rueidis.RedisResult) (o, m, r int) {
+	o, m, r = -1, -1, -1
+	if !one.IsEmpty() {
+		o = cmdID(one)
+	}
+	if multi != nil {
+		m = -3
+		if len(multi) > 0 {
+			m = cmdID(multi[0])
+		}
+	}
+	if resps != nil {
+		r = -3
+		if len(resps) > 0 {
+			r = rueidis.VerifResultID(resps[0])
+		}
+	}
+	return
+}
+
+// ownPayload is what the putter of command id supplied
+func (info *runInfo) ownPayload(id int) (o, m, r int) {
+	if info.isMulti[id] {
+		return -1, id, id
+	}
+	return id, -1, -1
+}
+
 func spin(us int) {
 	if us <= 0 {
 		return
@@ -147,12 +180,13 @@ type runInfo struct {
 	wOrder    []int
 	rOrder    []int
 	fillSlot  map[int]int // command id -> channel id returned by Put
+	isMulti   map[int]bool
 }
 
 const sentinel = 1 << 20
 
 func runQueue(c Case) *runInfo {
-	info := &runInfo{fillSlot: map[int]int{}}
+	info := &runInfo{fillSlot: map[int]int{}, isMulti: map[int]bool{}}
 	var mu sync.Mutex
 	problem := func(f string, a ...any) {
 		mu.Lock()
@@ -180,6 +214,7 @@ func runQueue(c Case) *runInfo {
 			if ch == nil {
 				one, multi, ch = q.WaitForWrite()
 			}
+			wo, wm, _ := payloadIDs(one, multi, nil)
 			if multi != nil {
 				one = multi[0]
 			}
@@ -189,8 +224,12 @@ func runQueue(c Case) *runInfo {
 				return
 			}
 			rueidis.VerifEmit(hvWItem, id, 0)
+			rueidis.VerifEmit(hvWTuple, wo, wm)
 			mu.Lock()
 			info.wOrder = append(info.wOrder, id)
+			if eo, em, _ := info.ownPayload(id); eo != wo || em != wm {
+				info.problems = append(info.problems, fmt.Sprintf("payload-own: the writer was handed (one=%d, multi=%d) for command %d, its caller supplied (one=%d, multi=%d)", wo, wm, id, eo, em))
+			}
 			mu.Unlock()
 			spin(c.WDelayUs)
 			server <- id
@@ -206,12 +245,12 @@ func runQueue(c Case) *runInfo {
 		rr := gen.New(c.Seed ^ 0x5eed)
 		for {
 			if c.Poll > 0 && rr.Intn(c.Poll) == 0 {
-				one, multi, ch, _ := q.NextResultCh()
+				one, multi, ch, resps := q.NextResultCh()
 				if ch == nil {
 					q.FinishResult()
 					continue
 				}
-				if !finish(q, one, multi, ch, server, info, &mu, problem) {
+				if !finish(q, one, multi, resps, ch, server, info, &mu, problem) {
 					return
 				}
 				continue
@@ -221,14 +260,14 @@ func runQueue(c Case) *runInfo {
 				// a reply arrived: its slot must be there
 				server2 := make(chan int, 1)
 				server2 <- id
-				one, multi, ch, _ := q.NextResultCh()
+				one, multi, ch, resps := q.NextResultCh()
 				if ch == nil {
 					q.FinishResult()
 					problem("reader: NextResultCh returned nothing although command %d was written", id)
 					return
 				}
 				spin(c.RDelayUs)
-				if !finish(q, one, multi, ch, server2, info, &mu, problem) {
+				if !finish(q, one, multi, resps, ch, server2, info, &mu, problem) {
 					return
 				}
 			}
@@ -255,7 +294,12 @@ func runQueue(c Case) *runInfo {
 				var err error
 				if c.Multi > 0 && pr.Intn(c.Multi) == 0 {
 					cmds := []rueidis.Completed{rueidis.VerifCmd(id), rueidis.VerifCmd(id)}
-					ch, err = q.PutMulti(ctx, cmds, make([]rueidis.RedisResult, 2))
+					resps := make([]rueidis.RedisResult, 2)
+					resps[0] = rueidis.VerifResult(id) // tag: identifies this caller's result slice
+					mu.Lock()
+					info.isMulti[id] = true
+					mu.Unlock()
+					ch, err = q.PutMulti(ctx, cmds, resps)
 				} else {
 					ch, err = q.PutOne(ctx, rueidis.VerifCmd(id))
 				}
@@ -314,19 +358,25 @@ func runQueue(c Case) *runInfo {
 	return info
 }
 
-func finish(q *rueidis.VerifQueue, one rueidis.Completed, multi []rueidis.Completed, ch chan rueidis.RedisResult, server chan int,
+func finish(q *rueidis.VerifQueue, one rueidis.Completed, multi []rueidis.Completed, resps []rueidis.RedisResult, ch chan rueidis.RedisResult, server chan int,
 	info *runInfo, mu *sync.Mutex, problem func(string, ...any)) bool {
+	ro, rm, rr := payloadIDs(one, multi, resps)
 	if multi != nil {
 		one = multi[0]
 	}
 	cid := cmdID(one)
 	rueidis.VerifEmit(hvRItem, cid, 0)
+	rueidis.VerifEmit(hvRTuple, ro, rm)
+	rueidis.VerifEmit(hvRResps, rr, 0)
 	id := <-server // the reply the server sent for the next written command
 	if id != cid {
 		problem("reader-order: reply for command %d arrives but NextResultCh yields the slot of command %d", id, cid)
 	}
 	mu.Lock()
 	info.rOrder = append(info.rOrder, cid)
+	if eo, em, er := info.ownPayload(id); eo != ro || em != rm || er != rr {
+		info.problems = append(info.problems, fmt.Sprintf("payload-own: NextResultCh returned (one=%d, multi=%d, resps=%d) for command %d, its caller supplied (one=%d, multi=%d, resps=%d): the reader would write this reply into another call's result slice", ro, rm, rr, id, eo, em, er))
+	}
 	mu.Unlock()
 	ch <- rueidis.VerifResult(id)
 	rueidis.VerifEmit(hvDeliver, cid, 0)
@@ -417,6 +467,37 @@ func ringDigit(kind, p, s, code, item int) uint64 {
 	return uint64(kind) | uint64(p)<<4 | uint64(s)<<16 | uint64(code+1)<<20 | uint64(item+1)<<22
 }
 
+// withMulti sets the PutMulti flag of a PutLock digit
+func withMulti(d uint64, m bool) uint64 {
+	if m {
+		d |= 1 << 35
+	}
+	return d
+}
+
+// withTuple adds the returned (one, multi, resps) as ticket numbers (-1 = nil / zero value)
+func withTuple(d uint64, t [3]int) uint64 {
+	d |= 1 << 36
+	for i, v := range t {
+		if v > 254 {
+			v = 254
+		}
+		d |= uint64(v+1) << (37 + 8*uint(i))
+	}
+	return d
+}
+
+func optTerm(v int) string {
+	if v < 0 {
+		return "None"
+	}
+	return fmt.Sprintf("(Some %d%%nat)", v)
+}
+
+func tupleTerm(t [3]int) string {
+	return fmt.Sprintf("(%s, %s, %s)", optTerm(t[0]), optTerm(t[1]), optTerm(t[2]))
+}
+
 func encodeDigits(ds []uint64) string {
 	ss := make([]string, len(ds))
 	for i, d := range ds {
@@ -456,13 +537,32 @@ func translateRing(c Case, info *runInfo) (string, string, map[string]int, strin
 	slotOfTicket := func(j int) int { return int((uint64(c.Start) + uint64(j)) % uint64(n)) }
 	// 2. items seen by writer / reader
 	var wItems, rItems []int
+	var wTuples, rTuples [][3]int
+	tk := func(id int) int { // command id -> ticket; nil stays nil; an id nobody put is an impossible ticket
+		if id == -1 {
+			return -1
+		}
+		if t, ok := ticket[id]; ok {
+			return t
+		}
+		return 254
+	}
 	for _, e := range evs {
 		switch e.Kind {
 		case hvWItem:
 			wItems = append(wItems, ticket[e.A])
 		case hvRItem:
 			rItems = append(rItems, ticket[e.A])
+		case hvWTuple:
+			wTuples = append(wTuples, [3]int{tk(e.A), tk(e.B), -1})
+		case hvRTuple:
+			rTuples = append(rTuples, [3]int{tk(e.A), tk(e.B), -1})
+		case hvRResps:
+			rTuples[len(rTuples)-1][2] = tk(e.A)
 		}
+	}
+	if len(wTuples) != len(wItems) || len(rTuples) != len(rItems) {
+		return "", "the harness events of the writer / reader are incomplete", kinds, "", 0
 	}
 	// 3. putter episodes (park .. retry) and reader signals per slot
 	type episode struct{ p, a, b, sig int }
@@ -525,7 +625,7 @@ func translateRing(c Case, info *runInfo) (string, string, map[string]int, strin
 	emitAt := func(after int, text string, digit uint64) {
 		sub++
 		out = append(out, outLabel{after: after, sub: sub, text: text, digit: digit})
-		kinds[strings.Fields(strings.Trim(strings.TrimPrefix(strings.TrimPrefix(strings.TrimPrefix(text, "mki "), "mkc "), "mk "), "()"))[0]]++
+		kinds[strings.Fields(strings.Trim(strings.TrimPrefix(strings.TrimPrefix(strings.TrimPrefix(strings.TrimPrefix(text, "mkt "), "mki "), "mkc "), "mk "), "()"))[0]]++
 	}
 	ticketsEmitted := 0
 	needTicket := func(i, p int) {
@@ -544,11 +644,11 @@ func translateRing(c Case, info *runInfo) (string, string, map[string]int, strin
 		case evPutPark:
 			p := ticket[e.A]
 			needTicket(i, p)
-			emitAt(i, fmt.Sprintf("mkc (PutLock %d %d) 0", p, slotOfTicket(p)), ringDigit(1, p, slotOfTicket(p), 0, -1))
+			emitAt(i, fmt.Sprintf("mkc (PutLock %d %d %s) 0", p, slotOfTicket(p), obs.Bool(info.isMulti[e.A])), withMulti(ringDigit(1, p, slotOfTicket(p), 0, -1), info.isMulti[e.A]))
 		case evPutFill:
 			p := ticket[e.A]
 			needTicket(i, p)
-			emitAt(i, fmt.Sprintf("mki (PutLock %d %d) %d %d", p, slotOfTicket(p), 1+e.B, p), ringDigit(1, p, slotOfTicket(p), 1+e.B, p))
+			emitAt(i, fmt.Sprintf("mki (PutLock %d %d %s) %d %d", p, slotOfTicket(p), obs.Bool(info.isMulti[e.A]), 1+e.B, p), withMulti(ringDigit(1, p, slotOfTicket(p), 1+e.B, p), info.isMulti[e.A]))
 		case evPutBcastPre:
 			// the putter that just filled this slot with slept = true
 			p := 0
@@ -561,7 +661,7 @@ func translateRing(c Case, info *runInfo) (string, string, map[string]int, strin
 			emitAt(i, fmt.Sprintf("mk (PutBcast %d %d)", p, e.A), ringDigit(2, p, e.A, -1, -1))
 		case evWNext:
 			if e.B == 1 {
-				emitAt(i, fmt.Sprintf("mki WNext 1 %d", wItems[wi]), ringDigit(3, 0, 0, 1, wItems[wi]))
+				emitAt(i, fmt.Sprintf("mkt WNext 1 %d %s", wItems[wi], tupleTerm(wTuples[wi])), withTuple(ringDigit(3, 0, 0, 1, wItems[wi]), wTuples[wi]))
 				wi++
 			} else {
 				emitAt(i, "mkc WNext 0", ringDigit(3, 0, 0, 0, -1))
@@ -580,15 +680,15 @@ func translateRing(c Case, info *runInfo) (string, string, map[string]int, strin
 			woke = true
 		case evWTake:
 			if inWait {
-				emitAt(i, fmt.Sprintf("mki WWaitRetry 1 %d", wItems[wi]), ringDigit(5, 0, 0, 1, wItems[wi]))
+				emitAt(i, fmt.Sprintf("mkt WWaitRetry 1 %d %s", wItems[wi], tupleTerm(wTuples[wi])), withTuple(ringDigit(5, 0, 0, 1, wItems[wi]), wTuples[wi]))
 			} else {
-				emitAt(i, fmt.Sprintf("mki WWaitEnter 1 %d", wItems[wi]), ringDigit(4, 0, 0, 1, wItems[wi]))
+				emitAt(i, fmt.Sprintf("mkt WWaitEnter 1 %d %s", wItems[wi], tupleTerm(wTuples[wi])), withTuple(ringDigit(4, 0, 0, 1, wItems[wi]), wTuples[wi]))
 			}
 			wi++
 			inWait, woke = false, false
 		case evRNext:
 			if e.B == 1 {
-				emitAt(i, fmt.Sprintf("mki RNext 1 %d", rItems[ri]), ringDigit(6, 0, 0, 1, rItems[ri]))
+				emitAt(i, fmt.Sprintf("mkt RNext 1 %d %s", rItems[ri], tupleTerm(rTuples[ri])), withTuple(ringDigit(6, 0, 0, 1, rItems[ri]), rTuples[ri]))
 				ri++
 			} else {
 				emitAt(i, "mkc RNext 0", ringDigit(6, 0, 0, 0, -1))
@@ -597,7 +697,7 @@ func translateRing(c Case, info *runInfo) (string, string, map[string]int, strin
 			emitAt(i, fmt.Sprintf("mki (RDeliver %d) 1 %d", ticket[e.A], ticket[e.A]), ringDigit(7, ticket[e.A], 0, 1, ticket[e.A]))
 		case evRUnlock:
 			emitAt(i, "mk RUnlock", ringDigit(8, 0, 0, -1, -1))
-		case evRSigPre, hvWItem, hvRItem:
+		case evRSigPre, hvWItem, hvRItem, hvWTuple, hvRTuple, hvRResps:
 		default:
 			return "", fmt.Sprintf("unexpected event kind %d in a ring trace", e.Kind), kinds, "", 0
 		}
